@@ -267,6 +267,9 @@ def run(ctx):
         outs.append(out)
         for b in out['bad'][:2]:
             ctx.violation('spec', f"C17 fails on the implementation: {b}", {'case': case, 'failure': b, 'calls': out['calls']})
+        if out['end'] == 'crash':
+            ctx.violation('spec', "C17 fails on the implementation: a residue was grown from a neighbour without a position",
+                          {'case': case, 'failure': 'grown from unpositioned neighbour', 'calls': out['calls']})
         exprs.append(coq_walk(case, out['path'], out['root']))
         nrew = sum(1 for ok in case['script'] if not ok)
         ctx.feature('end_' + out['end'])
@@ -285,6 +288,9 @@ def run(ctx):
         houts.append(out)
         for b in out['bad'][:2]:
             ctx.violation('spec', f"C17 fails on the implementation (molecule attempts): {b}", {'case': case, 'failure': b, 'handle': True})
+        if out['end'] == 'crash':
+            ctx.violation('spec', "C17 fails on the implementation (molecule attempts): a residue was grown from a neighbour without a position",
+                          {'case': case, 'failure': 'grown from unpositioned neighbour', 'handle': True})
         hexprs.append(coq_handle(case, out['path'], out['root']))
         ctx.feature('handle_end_' + out['end'])
         ctx.case(json.dumps(case, sort_keys=True), nontrivial=len([c for c in out['calls'] if c[0] == 'attempt']) > 1)
@@ -334,7 +340,38 @@ def run(ctx):
 
 
 def search(ctx):
-    return
+    """after a broken obligation / correspondence: directed schedules judged on the implementation
+    (chains and trees with a pre-positioned residue inside the rewind window, one failure at
+    every position, every rewind depth)"""
+    rng = ctx.rng
+    tried = 0
+    for n in range(4, 9):
+        for nrewind in (1, 2, 3, 5):
+            for pre_pos in [None] + list(range(0, n)):
+                for fail_at in range(1, n + 2):
+                    keys = list(range(n))
+                    case = {'keys': keys, 'edges': [(i, i + 1) for i in range(n - 1)],
+                            'pre': [] if pre_pos is None else [pre_pos],
+                            'nrewind': nrewind, 'maxiter': 50, 'dfs': False, 'first_ok': True,
+                            'script': [True] * (fail_at - 1) + [False] + [True] * (3 * n)}
+                    out = run_impl(case)
+                    tried += 1
+                    if out['bad']:
+                        ctx.violation('search', f"C17 fails on the implementation: {out['bad'][0]}",
+                                      {'case': case, 'failure': out['bad'][0], 'calls': out['calls'], 'broken': ctx.broken})
+                        return
+                    if out['end'] == 'crash':
+                        ctx.violation('search', "a residue was grown from a neighbour without a position",
+                                      {'case': case, 'failure': 'grown from unpositioned neighbour', 'calls': out['calls'], 'broken': ctx.broken})
+                        return
+    for _ in range(1500):
+        c = gen_case(rng)
+        out = run_impl(c)
+        if out['bad'] or out['end'] == 'crash':
+            ctx.violation('search', f"C17 fails on the implementation: {(out['bad'] or ['grown from unpositioned neighbour'])[0]}",
+                          {'case': c, 'failure': (out['bad'] or ['crash'])[0], 'broken': ctx.broken})
+            return
+    ctx.note(f"search: {tried} directed schedules and 1500 random ones satisfied the statement on the implementation")
 
 
 def replay(ctx, data):
@@ -345,5 +382,6 @@ def replay(ctx, data):
     if 'attempts' in case:
         case['attempts'] = [(a, list(b)) for a, b in case['attempts']]
     out = run_impl(case, handle=bool(data.get('handle')))
-    print('replay:', out['bad'] or 'statement satisfied on this schedule')
-    return 1 if out['bad'] else 0
+    bad = out['bad'] or (['grown from unpositioned neighbour'] if out['end'] == 'crash' else [])
+    print('replay:', bad or 'statement satisfied on this schedule')
+    return 1 if bad else 0
